@@ -256,9 +256,10 @@ def sc_trickle(rng, k, deep):
     and reports the sum with the next condition (window full, EOF, timeout)"""
     tr = rng.randint(3, 5); off = rng.randint(0, 2); size = off + tr + rng.randint(0, 1)
     efl = rng.choice([0, 2]); n = rng.randint(2, tr + 1)
-    fin = rng.choice(["full", "close", "timeout", "stop"])
+    fin = rng.choice(["full", "close", "timeout", "stop", "stop-start", "stop-start"])
     tmo = 40 if fin == "timeout" else rng.choice([0, 60000])
     P = {"P": "C", "F": rng.choice(["sN", "rC,sN"]), "E": "sE", "T": rng.choice(["sN", "C,sN"]), "X": "sX"}
+    if fin == "stop-start": P["F"] = "sN"     # (a callback that re-windows the buffer and continues is exercised by the other endings)
     L = ["m tknew %d 0 %d %d %d %d" % (k, size, off, tr, off)] + pol_lines(k, P)
     L += w0(["tkcreate %d 0 0 0" % k, "tkstart %d 0 0 %d %d 0" % (k, efl, tmo)])
     sent = 0
@@ -267,6 +268,10 @@ def sc_trickle(rng, k, deep):
     if fin == "close": L.append("m peerclose %d" % k)
     elif fin == "timeout": L.append("m tkwait %d 1 1 10000" % k)
     elif fin == "stop": L += w0(["tkstop %d" % k]) + ["m quiesce", "m tkcount %d" % k] + w0(["tkrestart %d" % k]) + ["m peerw %d %d %d" % (k, sent + 1, tr)]
+    elif fin == "stop-start":
+        # stopped after a partial transfer that produced no callback, then STARTED again (not restarted): a start begins a new
+        # account - the octets of the stopped run are not reported by the first callback of the new one (seed C16-7)
+        L += w0(["tkstop %d" % k]) + ["m quiesce", "m tkcount %d" % k] + w0(["tkstart %d 0 0 %d %d 0" % (k, efl, tmo)]) + ["m peerw %d %d %d" % (k, sent + 1, tr)]
     L += ["m quiesce", "m tkcount %d" % k, "m tkfree %d" % k, "m reset"]
     return L
 
